@@ -16,6 +16,19 @@ Sections are entered through the public API under test:
 where api is the `Cache` facade (cfg "facade*") or the backend itself (cfg "raw*": `Memory.lock`,
 `cashews.decorators.locked(backend, ...)`).
 
+Several backends (facade configurations only): `case["backends"] = [{"p": <prefix index>, "off": "all" | [command names]}, ...]`
+sets up one recording backend per entry under the prefix PREFIXES[p] and then disables it entirely / disables the listed
+commands on it through the facade (`cache.disable(..., prefix=...)`, before the tasks are created: they inherit the
+setting).  A section's `"be"` names the prefix its key is built with: `PREFIXES[be] + "locked:K<key>"`.  Every backend gets a
+recording middleware (outermost) which logs what the facade got back from it for PING (`mw_ping`) and every None answer of
+SET_LOCK / UNLOCK / IS_LOCKED (`disabled`: the command never reached the backend).
+
+Transactions (facade only): a step `["tx", "f"|"l"|"s", body, "n"|"e"]` runs `body` inside `async with
+api.transaction(<mode>)` (end "e": a scripted exception leaves the block -> rollback); sections may be entered inside such a
+block and blocks may be opened inside a section body; `["set", v]` writes the task's own application key (inside a block it
+goes to the overlay, in LOCKED / SERIALIZABLE mode behind a `:tx_lock:` / `:serializable:lock` key on the backend - lock
+commands on keys that are not scripted lock keys are logged as `aux_*` and are not part of the protocol under test).
+
 Everything observable is recorded by `RecMemory` (a subclass that logs set_lock / unlock / is_locked / ping
 with their results and the virtual instant) and by the scripted bodies (body_enter / body_exit / outcome).
 No uuid, address or float is ever compared: identifiers are mapped to activation numbers in order of first
@@ -32,6 +45,7 @@ from __future__ import annotations
 
 import asyncio
 import contextvars
+import re
 from typing import Any
 
 from . import memhist, vtime
@@ -58,12 +72,54 @@ class BodyError(Exception):
     """the scripted exception a body raises"""
 
 
+class TxAbort(Exception):
+    """the scripted exception that leaves a transaction block (rollback)"""
+
+
+PREFIXES = ["", "p:", "q:"]
+TX_MODES = {"f": "FAST", "l": "LOCKED", "s": "SERIALIZABLE"}
+_LOCK_KEY = re.compile(r"^(p:|q:)?locked:K(\d+)$")
+
+
+def is_lock_key(key) -> bool:
+    return isinstance(key, str) and _LOCK_KEY.match(key) is not None
+
+
+def knum(key: str) -> int:
+    """model key number of a scripted lock key: 100 * (index of the prefix it is built with) + k"""
+    m = _LOCK_KEY.match(key)
+    return 100 * PREFIXES.index(m.group(1) or "") + int(m.group(2))
+
+
+def owner_prefix(key: str, backends: list) -> int | None:
+    """prefix index of the configured backend that owns `key`: the longest registered prefix the key starts with
+    (cashews/wrapper/wrapper.py `_get_backend`; C17) - None = NotConfiguredError"""
+    best = None
+    for b in backends:
+        pre = PREFIXES[b["p"]]
+        if key.startswith(pre) and (best is None or len(pre) > len(PREFIXES[best])):
+            best = b["p"]
+    return best
+
+
+def case_backends(case: dict) -> list:
+    return case.get("backends") or [{"p": 0, "off": []}]
+
+
+def health_of(b: dict) -> tuple[bool, bool]:
+    """(SET_LOCK enabled, PING answered) of a configured backend"""
+    off = b.get("off") or []
+    if off == "all":
+        return False, False
+    return "set_lock" not in off, "ping" not in off
+
+
 SEC: contextvars.ContextVar[Any] = contextvars.ContextVar("verif_lock_section", default=None)
 _current: "Run | None" = None
 
 
-def keyname(k: int) -> str:
-    return f"locked:K{k}"
+def keyname(k: int, be: int = 0) -> str:
+    return f"{PREFIXES[be]}locked:K{k}"
 
 
 def _mk_rec_class():
@@ -80,12 +136,17 @@ def _mk_rec_class():
                 return "expired"
             return "live"
 
+        vidx = 0        # prefix index this instance is registered under
+
         async def set_lock(self, key, value, expire):
             run = _current
             raw = self._raw_state(key)
             r = await super().set_lock(key, value, expire)
             if run is not None:
-                run.log("set_lock", key=key, tok=value, ttl=expire, res=r, raw=raw, sec=SEC.get())
+                if is_lock_key(key):
+                    run.log("set_lock", key=key, tok=value, ttl=expire, res=r, raw=raw, sec=SEC.get(), be=self.vidx)
+                else:
+                    run.log("aux_set_lock", key=key, res=r, be=self.vidx)
             return r
 
         async def unlock(self, key, value):
@@ -93,19 +154,22 @@ def _mk_rec_class():
             raw = self._raw_state(key)
             r = await super().unlock(key, value)
             if run is not None:
-                run.log("unlock", key=key, tok=value, res=r, raw=raw, sec=SEC.get())
+                if is_lock_key(key):
+                    run.log("unlock", key=key, tok=value, res=r, raw=raw, sec=SEC.get(), be=self.vidx)
+                else:
+                    run.log("aux_unlock", key=key, res=r, be=self.vidx)
             return r
 
         async def is_locked(self, key, wait=None, step=0.1):
             run = _current
             r = await super().is_locked(key, wait=wait, step=step)
             if run is not None:
-                run.log("probe", key=key, res=r)
+                run.log("probe" if is_lock_key(key) else "aux_probe", key=key, res=r, be=self.vidx)
             return r
 
         async def ping(self, message=None):
             if _current is not None:
-                _current.log("ping", msg=message, sec=SEC.get())
+                _current.log("ping", msg=message, sec=SEC.get(), be=self.vidx)
             return await super().ping(message)
 
     return RecMemory
@@ -254,18 +318,20 @@ class Run:
         self.livelock: str | None = None
         self.api = None
         self.backend = None
+        self.backends: list = []
         self.deco = None
 
     # ---- log ----------------------------------------------------------------------------------------
     def _mutation(self, op, key, store):
         """called by the observed store after every mutation (see memhist.LoggedStore)"""
-        if self.torn or self.backend is None or store is not self.backend.store:
+        if self.torn or not any(store is b.store for b in self.backends):
             return
         if asyncio.current_task() is self.main_task or (TASK_ID.get() if self.gated else _TIMED_TASK.get()) is not None:
             return                          # the harness itself / a scripted task inside a command
+        be = next(b.vidx for b in self.backends if b.store is store)
         ls = self.last_sweep
-        if ls is None or ls[:2] != (CLOCK.t, self.ncmd):
-            self.log("sweep", task=None, did=[])
+        if ls is None or ls[:2] != (CLOCK.t, self.ncmd) or ls[2]["be"] != be:
+            self.log("sweep", task=None, did=[], be=be)
             ls = self.last_sweep = (CLOCK.t, self.ncmd, self.events[-1])
         ls[2]["did"].append([op, key])
 
@@ -294,25 +360,58 @@ class Run:
         return v in self.idents
 
     # ---- setup --------------------------------------------------------------------------------------
+    def _recording_middleware(self, p: int):
+        """outermost middleware of backend `p`: what the facade gets back from it (None = the command is disabled)"""
+        from cashews import Command
+
+        watched = {Command.SET_LOCK: "set_lock", Command.UNLOCK: "unlock", Command.IS_LOCKED: "is_locked"}
+        run = self
+
+        async def mw(call, cmd, backend, *args, **kwargs):
+            r = await call(*args, **kwargs)
+            if cmd is Command.PING:
+                run.log("mw_ping", be=p, res=r is not None, sec=SEC.get())
+            elif cmd in watched and r is None:
+                run.log("disabled", cmd=watched[cmd], key=kwargs.get("key", args[0] if args else None), be=p, sec=SEC.get())
+            return r
+
+        return mw
+
     async def setup(self):
-        from cashews import Cache
+        from cashews import Cache, Command
 
         cls = _classes_get()
         interval = self.cfg["purge"] * TICK
+        specs = case_backends(self.case)
         if self.cfg["facade"]:
             cache = Cache()
             scheme = "vlockg" if self.gated else "vlock"
-            backend = cache.setup(f"{scheme}://?size=1000&check_interval={interval}{self.cfg['extra']}")
+            for b in specs:
+                be = cache.setup(f"{scheme}://?size=1000&check_interval={interval}{self.cfg['extra']}",
+                                 middlewares=(self._recording_middleware(b["p"]),), prefix=PREFIXES[b["p"]])
+                be.vidx = b["p"]
+                self.backends.append(be)
             await cache.init()
+            names = {"ping": Command.PING, "set_lock": Command.SET_LOCK}
+            for b in specs:
+                off = b.get("off") or []
+                if off == "all":
+                    cache.disable(prefix=PREFIXES[b["p"]])
+                elif off:
+                    cache.disable(*[names[c] for c in off], prefix=PREFIXES[b["p"]])
             self.api = cache
             self.deco = cache.locked
+            backend = self.backends[0]
         else:
             import cashews.decorators as decorators
 
+            if specs != [{"p": 0, "off": []}]:
+                raise ValueError("several / disabled backends need a facade configuration")
             backend = (cls["gated"] if self.gated else cls["rec"])(size=1000, check_interval=interval)
             await backend.init()
+            self.backends.append(backend)
             self.api = backend
-            self.deco = lambda **kw: decorators.locked(backend, prefix="locked", **kw)
+            self.deco = lambda prefix="locked", **kw: decorators.locked(backend, prefix=prefix, **kw)
         self.backend = backend
         await asyncio.sleep(0)
 
@@ -331,13 +430,46 @@ class Run:
             elif op == "point":
                 await self._pause()
             elif op == "funlock":
-                await self.api.unlock(keyname(st[1]), f"alien-{st[2]}")
+                await self.api.unlock(keyname(st[1], st[3] if len(st) > 3 else 0), f"alien-{st[2]}")
             elif op == "probe":
-                await self.api.is_locked(keyname(st[1]))
+                await self.api.is_locked(keyname(st[1], st[2] if len(st) > 2 else 0))
             elif op == "lock":
                 await self.run_section(st[1])
+            elif op == "tx":
+                await self.run_tx(st)
+            elif op == "set":
+                task = TASK_ID.get() if self.gated else _TIMED_TASK.get()
+                self.log("app_set", v=st[1])
+                await self.api.set(f"{PREFIXES[case_backends(self.case)[0]['p']]}data:T{task}", st[1])
             else:
                 raise ValueError(f"unknown step {st!r}")
+
+    async def run_tx(self, st: list):
+        from cashews import TransactionMode
+
+        if not self.cfg["facade"]:
+            raise ValueError("transactions need a facade configuration")
+        mode = getattr(TransactionMode, TX_MODES[st[1]])
+        body = st[2]
+        end = st[3] if len(st) > 3 else "n"
+        how = "c"
+        entered = False
+        try:
+            async with self.api.transaction(mode):
+                entered = True
+                self.log("tx_begin", mode=st[1])
+                try:
+                    await self.run_steps(body)
+                    if end == "e":
+                        raise TxAbort("scripted")
+                except BaseException:
+                    how = "r"
+                    raise
+        except TxAbort:
+            pass
+        finally:
+            if entered:
+                self.log("tx_end", how=how)
 
     async def run_section(self, sec: dict):
         from cashews.exceptions import LockedError
@@ -348,7 +480,10 @@ class Run:
         ttl = None if sec["ttl"] is None else sec["ttl"] * TICK
         ci = sec.get("ci", 0) * TICK
         run = self
-        self.log("sec_start", sec=sid, via=sec["via"], key=keyname(sec["key"]), ttl=sec["ttl"], wait=sec["wait"],
+        be = sec.get("be", 0)
+        key = keyname(sec["key"], be)
+        deco_prefix = PREFIXES[be] + "locked"
+        self.log("sec_start", sec=sid, via=sec["via"], key=key, ttl=sec["ttl"], wait=sec["wait"],
                  ci=sec.get("ci", 0))
 
         async def body():
@@ -370,10 +505,10 @@ class Run:
         outcome = "ok"
         try:
             if sec["via"] == "cm":
-                async with self.api.lock(keyname(sec["key"]), expire=ttl, wait=sec["wait"], check_interval=ci):
+                async with self.api.lock(key, expire=ttl, wait=sec["wait"], check_interval=ci):
                     await body()
             elif sec["via"] == "deco":
-                @self.deco(ttl=ttl, key="K{k}", wait=sec["wait"], check_interval=ci)
+                @self.deco(ttl=ttl, key="K{k}", wait=sec["wait"], check_interval=ci, prefix=deco_prefix)
                 async def guarded(k):
                     await body()
                     return k
@@ -382,7 +517,7 @@ class Run:
             elif sec["via"] == "gen":
                 chunks = sec.get("body", [])
 
-                @self.deco(ttl=ttl, key="K{k}", wait=sec["wait"], check_interval=ci)
+                @self.deco(ttl=ttl, key="K{k}", wait=sec["wait"], check_interval=ci, prefix=deco_prefix)
                 async def guarded_gen(k):
                     run.log("body_enter", sec=sid)
                     how = "n"
@@ -469,9 +604,9 @@ class Run:
             # whatever still runs is cancelled by the teardown: its clean-up is not part of the observed run
             self.torn = True
             memhist._ACTIVE = None
-            if self.backend is not None:
+            for b in self.backends:
                 try:
-                    await self.backend.close()
+                    await b.close()
                 except Exception:
                     pass
             _current = None
